@@ -10,7 +10,7 @@ import core
 
 ID = 'C19'
 DOMAIN = 'dyn'
-PROPS_FILES = ['Gin/Props/C19.lean']
+PROPS_FILES = ['Gin/Props/C19.lean', 'Gin/Props/C19b.lean']
 ANCHOR_FILES = ['config.py', 'config_parser.py']
 RULE = ('a fixed package tree (packages, modules, functions, classes, nested class, methods, re-exported names, two modules '
         'with the same leaf name) x 1-2 parse calls, each a file that enables dynamic registration, with random import forms '
@@ -277,6 +277,15 @@ def run_impl(case):
           err = type(e).__name__
         break
     res = {'err': err, 'err_msg': err_msg, 'bindings': observe(gin, objs), 'texts': texts + counter[1:]}
+    # the import manager config_str() would build from the imports recorded so far
+    imps = gin.config._IMPORTS  # pylint: disable=protected-access
+    order = sorted(imps, key=lambda st: (st.module, not st.is_from))
+    res['imlist'] = [{'k': 'imp', 'module': st.module.split('.'), 'from': bool(st.is_from), 'alias': st.alias} for st in order]
+    im = gin.config.ImportManager(imps)
+    res['im'] = {'imports': [[st.module.split('.'), bool(st.is_from), st.alias] for st in im.imports],
+                 'selectors': [[m.split('.'), sel.split('.')] for m, sel in im.module_selectors.items()]}
+    names = [st.bound_name() for st in im.imports]
+    res['im_names_distinct'] = len(set(names)) == len(names)
     keys = sorted(f'{s}|{sel}' for (s, sel) in gin.config._CONFIG)  # pylint: disable=protected-access
     res['store_keys'] = keys
     if err is None:
@@ -307,7 +316,7 @@ def _strip(stmts):
 
 def to_driver(case, impl):
   w, _ = get_world()
-  return {'dom': 'dyn', 'world': w, 'units': [_strip(u) for u in case['units']]}
+  return {'dom': 'dyn', 'world': w, 'units': [_strip(u) for u in case['units']], 'imlist': impl.get('imlist', [])}
 
 
 def _canon_model(model):
@@ -321,6 +330,8 @@ def compare(case, impl, model):
     return f'outcome: implementation {impl["err"]}, model {model["err"]}'
   if impl['bindings'] != _canon_model(model):
     return f'per-object bindings: implementation {impl["bindings"]}, model {_canon_model(model)}'
+  if 'im' in impl and model.get('im') != impl['im']:
+    return f'import manager: implementation {impl["im"]}, model {model.get("im")}'
   return None
 
 
@@ -353,6 +364,8 @@ def oracle(case, impl):
   if impl['bindings'] != want:
     return (f'bindings do not sit on the objects the spellings denote: expected {want}, '
             f'registered configurables hold {impl["bindings"]} (store keys {impl["store_keys"]})')
+  if impl.get('im_names_distinct') is False:
+    return f'the import manager binds one name twice: {impl["im"]["imports"]}'
   if err is None and impl.get('roundtrip') != impl['bindings']:
     return f'config_str() parsed back gives {impl.get("roundtrip")}, before {impl["bindings"]}:\n{impl.get("config_str")}'
   return None
